@@ -298,6 +298,8 @@ class Names:
                     a, r = sig(b)
                     if r == BB and len(a) == 1 and "IN_CHECK" in b.j["generics"]:
                         cands.add(c)
+                    elif r == BB and len(a) == 2 and sorted(x.lstrip("&") for x in a) == sorted([B, "bool"]) and "IN_CHECK" not in b.j["generics"]:
+                        cands.add(c)        # the check mode handed in as a runtime flag
             return self._one("the target-square function of the generators", cands)
         return self._memo("target_squares", go)
 
